@@ -38,10 +38,7 @@ impl vstd::std_specs::convert::FromSpecImpl<DaserError> for PrunerError {
 impl From<DaserError> for PrunerError { fn from(e: DaserError) -> PrunerError { PrunerError::Daser } }
 type PResult<T, E = PrunerError> = std::result::Result<T, E>;
 
-// std specification not in vstd (A-std)
-pub assume_specification<T, F: FnOnce(T) -> bool> [Option::<T>::is_none_or] (o: Option<T>, f: F) -> (r: bool)
-    requires o.is_some() ==> f.requires((o.unwrap(),))
-    ensures o.is_none() ==> r, o.is_some() ==> f.ensures((o.unwrap(),), r);
+// (Option::is_none_or / is_some_and are specified in the range unit)
 
 // header time (nanoseconds) of the unique (C21) header of the chain at a height; also defined for pruned heights
 pub uninterp spec fn time_of(h: int) -> int;
@@ -185,6 +182,11 @@ pub proof fn lemma_search_step(stored: ISet<int>, r0: ISet<int>, l: ISet<int>, m
 
 // ---- C35 stubs ----
 pub struct Duration { pub d: u64 }
+impl Duration {
+    // std::cmp::Ord::max / min on Duration (A-std)
+    #[verifier::external_body]
+    pub fn max(self, o: Duration) -> (r: Duration) ensures r.d == (if self.d >= o.d { self.d } else { o.d }) { unimplemented!() }
+}
 impl Clone for Duration { #[verifier::external_body] fn clone(&self) -> (r: Duration) ensures r == *self { unimplemented!() } }
 impl Copy for Duration {}
 impl Duration {
